@@ -188,6 +188,7 @@ void Sim::resume(Task *t)
 
 void Sim::to_scheduler(Task *t)
 {
+	t->spin = 0;
 	{
 		std::unique_lock<std::mutex> lk(smu);
 		sched_go = true;
@@ -335,6 +336,15 @@ time_t __wrap_time(time_t *t)
 {
 	if (!sim::g_sim)
 		return __real_time(t);
+	// busy-wait guard: code that polls the clock for a deadline without ever blocking (a loop of the form
+	// do { ... } while (time(NULL) < entry + timeout) whose body finds nothing to wait for) makes progress on
+	// a real machine because time passes; here one simulated second passes after 4096 reads in a row
+	sim::Task *ct = sim::g_sim->current();
+	if (ct && !sim::g_sim->aborting && ++ct->spin > 4096)
+	{
+		sim::g_sim->count("seam.spin_guard");
+		sim::g_sim->sleep_ms(1000);
+	}
 	time_t v = sim::g_sim->time_now();
 	if (t)
 		*t = v;
